@@ -637,6 +637,33 @@ func genC09(rng *rand.Rand, tier string) (cases []string) {
 		c.ops = genC09Ops(rng, 1+rng.IntN(12), 0, c.cb && c.lru)
 		cases = append(cases, c.String())
 	}
+	// directed: a cache filled to its COUNT bound with small entries (so the size bound has slack),
+	// then a Set whose eviction callbacks grow the cache re-entrantly with larger entries: the
+	// size and the count condition of the eviction loop have to be re-evaluated together after
+	// every callback
+	for i := 0; i < n/10; i++ {
+		m := uint(2 + rng.IntN(3))
+		c := c09Case{maxCount: m, maxSize: uint(pick(rng, 8, 10, 12, 14, 16, 20)), lru: true, cb: true}
+		c.maxElem = pick(rng, 0, 0, c.maxSize)
+		keys := [][]byte{[]byte("a"), []byte("b"), []byte("c"), []byte("d")}
+		for j := uint(0); j < m; j++ {
+			c.ops = append(c.ops, c09Op{kind: 'S', k: keys[j], v: c09Vals[1+rng.IntN(2)]})
+		}
+		trigger := c09Op{kind: 'S', k: []byte(pick(rng, "e", "f", "a")), v: c09Vals[rng.IntN(len(c09Vals))]}
+		for j, k := 0, 1+rng.IntN(3); j < k; j++ {
+			var cb []c09Op
+			for q, r := 0, 1+rng.IntN(2); q < r; q++ {
+				cb = append(cb, c09Op{kind: 'S', k: []byte(pick(rng, "y", "z", "b", "e")), v: c09Vals[3+rng.IntN(3)]})
+			}
+			if rng.IntN(3) == 0 {
+				cb = append(cb, c09Op{kind: pick(rng, byte('G'), byte('D')), k: []byte(pick(rng, "b", "c", "y"))})
+			}
+			trigger.cbs = append(trigger.cbs, cb)
+		}
+		c.ops = append(c.ops, trigger, c09Op{kind: 'T'})
+		c.ops = append(c.ops, genC09Ops(rng, rng.IntN(4), 0, true)...)
+		cases = append(cases, c.String())
+	}
 	// bounded-exhaustive: every script of at most exLen calls over a small alphabet
 	alpha := []c09Op{
 		{kind: 'S', k: []byte("a"), v: []byte("x")},
